@@ -114,6 +114,11 @@ EFFECTS = [
     dict(file="FnSockCb", src="client.py", qual="Client._call_socket_unregister_write", name="callSocketUnregisterWrite", params=[("sock", "Ref")],
          attrs=[("_sock", "Ref"), ("_registered_write", "Bool"), ("on_socket_unregister_write", "Fn"), ("suppress_exceptions", "Bool")],
          clock="now", ignore=["_easy_log"], calls={}, fn_calls={"on_socket_unregister_write": "cb_raises"}, fn_keeps=["suppress_exceptions"]),
+    # (`try: A finally: B` is A followed by B: the calls in A are taken not to raise - whether a callee raises is a parameter of
+    # the callee's own translation -; `<local>.close()` on a socket reference is the effect `call "close" [<local>]`)
+    dict(file="FnSockCb", src="client.py", qual="Client._sock_close", name="sockClose", params=[],
+         attrs=[("_sock", "Ref")], clock="now", ignore=[],
+         calls={"_call_socket_unregister_write": dict(clobbers="*", args=1), "_call_socket_close": dict(clobbers="*", args=1)}),
     # (an entry of the `_in_packet` dictionary is an attribute named `_in_packet.<key>`)
     dict(file="FnKeepalive", src="client.py", qual="Client._handle_pingresp", name="handlePingresp", params=[], ret="Int",
          attrs=[("_in_packet.remaining_length", "Int")], clock="now", ignore=["_easy_log"], calls={}),
@@ -792,7 +797,7 @@ class EffTr(Tr):
             raise Missing(f"positional arguments in self.{name}()")
         for a_ in ([] if c.get("args") == "opaque" else v.args):
             a, t = self.expr(a_)
-            if t != "Int":
+            if t not in ("Int", "Ref"):
                 raise Missing(f"positional argument of type {t}")
             args.append(a)
         kw = {k.arg: k.value for k in v.keywords}
@@ -862,7 +867,10 @@ class EffTr(Tr):
             elif isinstance(s, ast.Assign) and len(s.targets) == 1 and self.is_self_attr(s.targets[0]) and not (
                     isinstance(s.value, ast.Call) and isinstance(s.value.func, ast.Name) and s.value.func.id == "time_func"):
                 a = s.targets[0].attr
-                val, t = self.expr(s.value)
+                if isinstance(s.value, ast.Constant) and s.value.value is None and self.types.get("self." + a) == "Ref":
+                    val, t = "(0 : Int)", "Int"
+                else:
+                    val, t = self.expr(s.value)
                 if t == "Bool":
                     val = f"(if {val} then 1 else 0)"
                 elif t != "Int":
@@ -892,6 +900,12 @@ class EffTr(Tr):
                 out.append(self.call_eff(pad, v))
             elif isinstance(s, ast.Raise) and s.exc is None:
                 out.append(f"{pad}throw Exc.other")          # re-raises the user's exception
+            elif isinstance(s, ast.Try) and not s.handlers and not s.orelse and s.finalbody:
+                out += self.stmts(s.body, ind, ctl)
+                out += self.stmts(s.finalbody, ind, ctl)
+            elif v is not None and isinstance(v, ast.Call) and isinstance(v.func, ast.Attribute) and v.func.attr == "close" and not v.args \
+                    and isinstance(v.func.value, ast.Name) and self.types.get(v.func.value.id) == "Ref":
+                out.append(f'{pad}effs := effs ++ [Py.MEff.call "close" [{lname(v.func.value.id)}]]')
             elif isinstance(s, ast.Try) and len(s.body) == 1 and isinstance(s.body[0], ast.Expr) and isinstance(s.body[0].value, ast.Call) \
                     and isinstance(s.body[0].value.func, ast.Name) and s.body[0].value.func.id in self.cfg.get("fn_calls", {}) \
                     and self.types.get(s.body[0].value.func.id) == "Fn" \
